@@ -35,6 +35,7 @@ Section Yee.
   (* ---- CPML layer description (perfectly_matched_layer.py) ---- *)
   Record pml := mkPml {
     p_axis : nat;                                   (* 0,1,2 *)
+    p_min : bool;                                   (* direction '-' (layer on the min side of its axis) *)
     p_x0 : nat; p_x1 : nat; p_y0 : nat; p_y1 : nat; p_z0 : nat; p_z1 : nat;   (* grid_slice, half-open *)
     p_aE : nat -> car K; p_bE : nat -> car K; p_ikE : nat -> car K;   (* profiles along the axis, index relative to the slice start *)
     p_aH : nat -> car K; p_bH : nat -> car K; p_ikH : nat -> car K;
@@ -44,6 +45,15 @@ Section Yee.
     (p_x0 p <=? i) && (i <? p_x1 p) && (p_y0 p <=? j) && (j <? p_y1 p) && (p_z0 p <=? k) && (k <? p_z1 p).
   Definition pml_depth (p : pml) (i j k : nat) : nat :=
     match p_axis p with O => (i - p_x0 p)%nat | S O => (j - p_y0 p)%nat | _ => (k - p_z0 p)%nat end.
+
+  (* boundary.py interface_slice: the layer's row that touches the interior *)
+  Definition in_iface (p : pml) (i j k : nat) : bool :=
+    in_pml p i j k &&
+    (match p_axis p with
+     | O => if p_min p then S i =? p_x1 p else i =? p_x0 p
+     | S O => if p_min p then S j =? p_y1 p else j =? p_y0 p
+     | _ => if p_min p then S k =? p_z1 p else k =? p_z0 p
+     end).
 
   Record scene := mkScene {
     nx : nat; ny : nat; nz : nat;
@@ -201,6 +211,23 @@ Section Yee.
     let t := Nat.pred (tstep s) in
     let s2 := update_E_rev t (update_H_rev t s) in
     mkSt t (fE s2) (fH s2) (psiE s2) (psiH s2).
+
+  (* ---- recording / restoring absorbing-layer interfaces (fdtd/misc.py collect/add_boundary_interfaces,
+          update.py collect_interfaces / add_interfaces with a lossless recorder) and apply_field_reset ---- *)
+  Definition is_iface (i j k : nat) : bool := existsb (fun p => in_iface p i j k) (pmls sc).
+  Definition in_any_pml (i j k : nat) : bool := existsb (fun p => in_pml p i j k) (pmls sc).
+  Definition restoreA (r f : A3) : A3 := fun i j k => if is_iface i j k then r i j k else f i j k.
+  Definition restoreV (r f : V3) : V3 := mkV (restoreA (vx r) (vx f)) (restoreA (vy r) (vy f)) (restoreA (vz r) (vz f)).
+  Definition resetA (f : A3) : A3 := fun i j k => if in_any_pml i j k then c0 else f i j k.
+  Definition resetV (f : V3) : V3 := mkV (resetA (vx f)) (resetA (vy f)) (resetA (vz f)).
+
+  (* backward.py: backward with add_interfaces (values recorded at step index t = fields of the forward
+     state t+1 on the interface slices) and reset_fields=True *)
+  Definition backward_rec (rec : nat -> V3 * V3) (s : state) : state :=
+    let t := Nat.pred (tstep s) in
+    let s1 := mkSt (tstep s) (restoreV (fst (rec t)) (fE s)) (restoreV (snd (rec t)) (fH s)) (psiE s) (psiH s) in
+    let s2 := update_E_rev t (update_H_rev t s1) in
+    mkSt t (resetV (fE s2)) (resetV (fH s2)) (psiE s2) (psiH s2).
 
   (* ---- Yee energy over two successive states: sum wE eps |E|^2 + sum wH mu Re(H_cur conj H_prev) ---- *)
   Definition wE1 (i j k : nat) : car K := wx sc i * dual (wy sc) j * dual (wz sc) k.
